@@ -250,7 +250,7 @@ func (s *h10Gen) parseSweep() {
 	s.parseCase(4, 1, 1, nil)
 	s.parseCase(4, 0, 1, setting(3, 1))
 	// random
-	m := s.c.N(600, 20000)
+	m := s.c.N(600, 6000)
 	for k := 0; k < m; k++ {
 		ty := uint8(r.Intn(11))
 		if r.Intn(12) == 0 {
@@ -346,7 +346,7 @@ func (s *h10Gen) writeSweep() {
 	r := s.c.Rng
 	sids := []uint32{0, 1, 3, 1<<31 - 1, 1 << 31, 1<<31 + 5}
 	frag := func() []byte { return r.Bytes(r.Intn(12)) }
-	m := s.c.N(40, 1200)
+	m := s.c.N(40, 400)
 	for k := 0; k < m; k++ {
 		sid := sids[r.Intn(len(sids))]
 		if r.Intn(2) == 0 {
@@ -560,7 +560,7 @@ func (s *h10Gen) inlineCase(side string, evs []string) {
 
 func (s *h10Gen) inlineSweep() {
 	r := s.c.Rng
-	m := s.c.N(12, 300)
+	m := s.c.N(12, 100)
 	for k := 0; k < m; k++ {
 		d := hx.Hex(r.Bytes(8))
 		sid := uint32(1 + 2*r.Intn(2000))
